@@ -162,6 +162,16 @@ def run_cases(ck: Check, n: int):
                 want = [k for k, d in zip(emulsion_key(base[1]), base[1]) if d.radius > mr]
                 if emulsion_key(got[1]) != want:
                     ck.fail(f"minimal_radius={mr}: result is not the droplets with radius > minimal_radius", {**sig, "check": "removeSmall_eq_filter"}, {**case, "minimal_radius": mr})
+                # the other options of the analysis have no say in the size filter: a supplied interface width (narrow or far wider than
+                # the small clusters) and requested modes change the class of the droplets, never which of them are kept
+                extra = rng.choice([dict(interface_width=rng.choice([0.0, 0.5, 3.5, 8.0]) * float(grid.typical_discretization)),
+                                    dict(interface_width=2.5 * radii[-1]), dict(modes=2) if grid.dim == 2 and grid.num_axes == 2 else dict(interface_width=1.0)])
+                got2 = locate(field, threshold="extrema", minimal_radius=mr, **extra)
+                ck.count("size_filter_with_other_options")
+                if got2[0] == "ok" and [(tuple(np.round(d.position, 9)), round(float(d.radius), 12)) for d in got2[1]] != \
+                        [(tuple(np.round(d.position, 9)), round(float(d.radius), 12)) for d in base[1] if d.radius > mr]:
+                    ck.fail(f"minimal_radius={mr} with {extra}: {len(got2[1])} droplets kept, {sum(d.radius > mr for d in base[1])} have a radius above the minimal radius",
+                            {**sig, "check": "removeSmall_eq_filter", "options": sorted(extra)}, {**case, "minimal_radius": mr, "options": {k: float(v) for k, v in extra.items()}})
             em = base[1].copy()
             mr = rng.choice(radii)
             rs = [d.radius for d in em]
